@@ -518,6 +518,13 @@ def _arc_new_of(t, weak=False):
             return None
 
 
+def flatten_phi_all(terms):
+    out = []
+    for t_ in terms:
+        out.extend(flatten_phi(t_))
+    return out
+
+
 def rule_E1(ctx, rep, rid='E1'):
     """Errors surface: spy send maps Full/Disconnected to Err; SocketStats::update returns Err(e) with the same e."""
     cad = ctx.cad
@@ -529,6 +536,11 @@ def rule_E1(ctx, rep, rid='E1'):
         rep.analysed(b)
         T = Terms(b)
         rts = ret_terms(T, [0])
+        if not (rts == {('param', 2)}):
+            # combinator chains (map/map_err/inspect/inspect_err with closures that do the counting) are read in their
+            # desugared form
+            T = Terms(inl(cad, b))
+            rts = set(flatten_phi_all(ret_terms(T, [0])))
         exp_ok = ('adt', 'core::result::Result', 'Ok', (('0', field_of(('payload', ('param', 2), 'Ok'), '0', 0)),))
         exp_err = ('adt', 'core::result::Result', 'Err', (('0', field_of(('payload', ('param', 2), 'Err'), '0', 0)),))
         ok = rts == {exp_ok, exp_err} or rts == {('param', 2)}
